@@ -306,12 +306,37 @@ class OkPeer(N.BaseHandler):
         return b"56789"
 
 
+class MonPM(PoolManager):
+    """Lock-discipline monitor of the get-or-create: the pool for a missing key must be built AND stored inside the same
+    critical section as the lookup (container lock owned by the caller) — that is what makes two racing requests with equal
+    parameters obtain the same pool object."""
+    unlocked = None
+
+    def _new_pool(self, *a, **kw):
+        if not self.pools.lock._is_owned():
+            self.unlocked.append("_new_pool called without the container lock")
+        return super()._new_pool(*a, **kw)
+
+
+class MonContainer(RecentlyUsedContainer):
+    unlocked = None
+
+    def __setitem__(self, k, v):
+        if not self.lock._is_owned():       # before our own acquire: only the caller's ownership counts
+            self.unlocked.append("pool stored in the cache outside the lookup's critical section")
+        RecentlyUsedContainer.__setitem__(self, k, v)
+
+
 def _manager_body(num_pools, o1, o2, o3, o4, s1, s2, clear_at, lookup_only):
     peer = OkPeer()
     netw = N.install(peer)
     E.install_clock()
     try:
-        pm = PoolManager(num_pools=num_pools)
+        pm = MonPM(num_pools=num_pools)
+        unlocked = []
+        pm.unlocked = unlocked
+        pm.pools.__class__ = MonContainer
+        pm.pools.unlocked = unlocked
         ref = []           # LRU list of origin indices
         pools = {}         # origin idx -> pool object while cached
         streaming = []     # (response, origin idx, pool)
@@ -385,6 +410,8 @@ def _manager_body(num_pools, o1, o2, o3, o4, s1, s2, clear_at, lookup_only):
         for c in cached:
             if c.pool is None:
                 return _fail("cached pool closed")
+        if unlocked:
+            return _fail("get-or-create is not atomic: %s" % unlocked[0])
         return True
     finally:
         N.uninstall()
